@@ -367,3 +367,9 @@ mod tests {
         assert_eq!(pairs, vec![(123, 2), (356, 1), (421, 4), (567, 3)]);
     }
 }
+
+// verification hook (guard: cfg(kani), set only by `cargo kani`): lets the harness module call the private header encoder
+#[cfg(kani)]
+pub(crate) fn verif_encode_header(header: &BlpHeader, output: &mut Vec<u8>) -> Result<(), Error> {
+    encode_header(header, output)
+}
